@@ -5,6 +5,9 @@ import ImathVerif.Lemmas.FixedArrayInplace
 import ImathVerif.Lemmas.StringTableLemmas
 import ImathVerif.Lemmas.FixedArray2DLemmas
 import ImathVerif.Lemmas.FixedArray2DWrite
+import ImathVerif.Lemmas.FixedArray2DSliceWrite
+import ImathVerif.Lemmas.FixedMatrixWrite
+import ImathVerif.Lemmas.FixedVArrayWrite
 import ImathVerif.Lemmas.FixedVArrayLemmas
 import ImathVerif.Model.FixedArrayWitness
 import ImathVerif.Lemmas.BufferProtocolLemmas
@@ -914,6 +917,122 @@ theorem array2d_setitem_int_refines {h : Heap} {v : View2D} (w : v.WF (shape h))
 
 example : (alloc2D [] 3 2 [1, 2, 3, 4, 5, 6]).2.Injective := alloc2D_Injective _ _ _ _
 
+/-! ### FixedArray2D slice / mask WRITES refine nested-list assignment
+`sx.positions` / `sy.positions` are the indices the subscripts select (`array2d_positions_are_the_slice`: for slice objects
+exactly `PyList.sliceIndices`); `PyList.assign2D L ys xs val` is `for b, j in enumerate(ys): for a, i in enumerate(xs):
+L[j][i] = val b a`.  Right-hand sides and masks live in other allocations (as for the 1-D theorems). -/
+
+/-- the positions of an accepted slice subscript are the language reference's -/
+theorem array2d_positions_are_the_slice {n : Nat} (hn : (n : Int) ≤ PY_SSIZE_T_MAX) {a b c : Option Int}
+    (hc : ∀ v, c = some v → -PY_SSIZE_T_MAX ≤ v) {s : SliceIdx} (h : extract2D n (.slice a b c) = .ok s) :
+    PyList.sliceIndices n a b c = some s.positions := extract_slice_spec hn hc h
+
+/-- `a[sx, sy] = x` -/
+theorem array2d_setitem_scalar_refines {h : Heap} {v : View2D} (w : v.WF (shape h)) (hinj : v.Injective) {ix iy : PyIdx}
+    {sx sy : SliceIdx} (hsx : extract2D v.lenX ix = .ok sx) (hsy : extract2D v.lenY iy = .ok sy) (x : Int) :
+    ∃ h', setitemScalar2D h v ix iy x = .ok h' ∧ shape h' = shape h ∧ Frame v.buf h h' ∧
+      v.toNested h' = PyList.assign2D (v.toNested h) sy.positions sx.positions (fun _ _ => x) :=
+  setitemScalar2D_refines w hinj hsx hsy x
+
+/-- `a[sx, sy] = b` (2-D right-hand side of the selected shape): `nested[ys[b]][xs[a]] = rhs[b][a]` -/
+theorem array2d_setitem_vector_refines {h : Heap} {v data : View2D} (w : v.WF (shape h)) (hinj : v.Injective)
+    (wd : data.WF (shape h)) (hne : data.buf ≠ v.buf) {ix iy : PyIdx} {sx sy : SliceIdx}
+    (hsx : extract2D v.lenX ix = .ok sx) (hsy : extract2D v.lenY iy = .ok sy)
+    (hdx : data.lenX = sx.slicelength) (hdy : data.lenY = sy.slicelength) :
+    ∃ h', setitemVector2D h v ix iy data = .ok h' ∧ shape h' = shape h ∧ Frame v.buf h h' ∧
+      v.toNested h' = PyList.assign2DInnerFirst (v.toNested h) sy.positions sx.positions
+        (fun b a => ((data.toNested h).getD b []).getD a 0) :=
+  setitemVector2D_refines w hinj wd hne hsx hsy hdx hdy
+
+/-- `a[sx, sy] = d` (1-D right-hand side; each axis keeps its own step): `nested[ys[b]][xs[a]] = d[b*len(xs) + a]` -/
+theorem array2d_setitem_array1d_refines {h : Heap} {v : View2D} {data : View} (w : v.WF (shape h)) (hinj : v.Injective)
+    (wd : data.WF (shape h)) (hne : data.buf ≠ v.buf) {ix iy : PyIdx} {sx sy : SliceIdx}
+    (hsx : extract2D v.lenX ix = .ok sx) (hsy : extract2D v.lenY iy = .ok sy)
+    (hdl : data.length = sx.slicelength * sy.slicelength) :
+    ∃ h', setitemArray1D h v ix iy data = .ok h' ∧ shape h' = shape h ∧ Frame v.buf h h' ∧
+      v.toNested h' = PyList.assign2D (v.toNested h) sy.positions sx.positions
+        (fun b a => (data.toList h).getD (b * sx.slicelength + a) 0) :=
+  setitemArray1D_refines w hinj wd hne hsx hsy hdl
+
+/-- `a[mask] = x` -/
+theorem array2d_setitem_scalar_mask_refines {h : Heap} {v mask : View2D} (w : v.WF (shape h)) (hinj : v.Injective)
+    (wm : mask.WF (shape h)) (hnm : mask.buf ≠ v.buf) (hmx : mask.lenX = v.lenX) (hmy : mask.lenY = v.lenY) (x : Int) :
+    ∃ h', setitemScalarMask2D h v mask x = .ok h' ∧ shape h' = shape h ∧ Frame v.buf h h' ∧
+      v.toNested h' = PyList.assignMask2D (v.toNested h) (mask.toNested h) v.lenY v.lenX (fun _ _ => x) :=
+  setitemScalarMask2D_refines w hinj wm hnm hmx hmy x
+
+/-- `a[mask] = b` (2-D right-hand side of the array's shape) -/
+theorem array2d_setitem_vector_mask_refines {h : Heap} {v mask data : View2D} (w : v.WF (shape h)) (hinj : v.Injective)
+    (wm : mask.WF (shape h)) (wd : data.WF (shape h)) (hnm : mask.buf ≠ v.buf) (hnd : data.buf ≠ v.buf)
+    (hmx : mask.lenX = v.lenX) (hmy : mask.lenY = v.lenY) (hdx : data.lenX = v.lenX) (hdy : data.lenY = v.lenY) :
+    ∃ h', setitemVectorMask2D h v mask data = .ok h' ∧ shape h' = shape h ∧ Frame v.buf h h' ∧
+      v.toNested h' = PyList.assignMask2D (v.toNested h) (mask.toNested h) v.lenY v.lenX
+        (fun j i => ((data.toNested h).getD j []).getD i 0) :=
+  setitemVectorMask2D_refines w hinj wm wd hnm hnd hmx hmy hdx hdy
+
+/-- `a[mask] = d` (1-D right-hand side of `lenX*lenY` elements; the packed branch, `len(d) == count(mask)`, is tied by
+    correspondence only) -/
+theorem array2d_setitem_array1d_mask_refines {h : Heap} {v mask : View2D} {data : View} (w : v.WF (shape h))
+    (hinj : v.Injective) (wm : mask.WF (shape h)) (wd : data.WF (shape h)) (hnm : mask.buf ≠ v.buf)
+    (hnd : data.buf ≠ v.buf) (hmx : mask.lenX = v.lenX) (hmy : mask.lenY = v.lenY) (hdl : data.length = v.lenX * v.lenY) :
+    ∃ h', setitemArray1DMask h v mask data = .ok h' ∧ shape h' = shape h ∧ Frame v.buf h h' ∧
+      v.toNested h' = PyList.assignMask2D (v.toNested h) (mask.toNested h) v.lenY v.lenX
+        (fun j i => (data.toList h).getD (j * v.lenX + i) 0) :=
+  setitemArray1DMask_full_refines w hinj wm wd hnm hnd hmx hmy hdl
+
+/-- non-vacuity + a worked instance: on the 3x2 array `[[1,2,3],[4,5,6]]`, `a[0:3:2, 1] = 9` gives `[[1,2,3],[9,5,9]]` -/
+example : (match setitemScalar2D (alloc2D [] 3 2 [1, 2, 3, 4, 5, 6]).1 (alloc2D [] 3 2 [1, 2, 3, 4, 5, 6]).2
+      (.slice (some 0) (some 3) (some 2)) (.int 1) 9 with
+    | .ok h' => (alloc2D [] 3 2 [1, 2, 3, 4, 5, 6]).2.toNested h'
+    | .error _ => []) = [[1, 2, 3], [9, 5, 9]] ∧
+    PyList.assign2D [[1, 2, 3], [4, 5, 6]] [1] [0, 2] (fun _ _ => (9 : Int)) = [[1, 2, 3], [9, 5, 9]] := by decide
+
+/-! ### FixedMatrix row / slice writes  (`RowSel m ms n rowOf`: the subscript selects rows `rowOf 0 … rowOf (n-1)`) -/
+
+/-- an int subscript of any sign selects one row; a slice (any signs) selects exactly the rows of the language reference -/
+theorem matrix_rows_int {m : MatView} {i : Int} {k : Nat} (hk : canonicalIndex m.rows i = .ok k) :
+    ∃ ms, extractMat m.rows (.int i) = .ok ms ∧ RowSel m ms 1 (fun _ => k) := rowSel_int hk
+
+theorem matrix_rows_slice {m : MatView} (hn : (m.rows : Int) ≤ PY_SSIZE_T_MAX) {a b c : Option Int}
+    (hc : ∀ v, c = some v → -PY_SSIZE_T_MAX ≤ v) {ms : MatSlice} (hm : extractMat m.rows (.slice a b c) = .ok ms) :
+    ∃ s : SliceIdx, RowSel m ms s.slicelength s.at ∧ PyList.sliceIndices m.rows a b c = some s.positions := by
+  obtain ⟨s, hs, hsel⟩ := rowSel_slice hn hc hm
+  exact ⟨s, hsel, extract_slice_spec hn hc hs⟩
+
+/-- `m[idx] = x` -/
+theorem matrix_setitem_scalar_refines {h : Heap} {m : MatView} (w : m.WF (shape h)) (hinj : m.Injective) {idx : PyIdx}
+    {ms : MatSlice} (hm : extractMat m.rows idx = .ok ms) {n : Nat} {rowOf : Nat → Nat} (hsel : RowSel m ms n rowOf)
+    (x : Int) :
+    ∃ h', setitemScalarMat h m idx x = .ok h' ∧ shape h' = shape h ∧ Frame m.buf h h' ∧
+      m.toNested h' = PyList.assign2D (m.toNested h) ((List.range n).map rowOf) (List.range m.cols) (fun _ _ => x) :=
+  setitemScalarMat_refines w hinj hm hsel x
+
+/-- `m[idx] = row` (1-D right-hand side of `cols` elements) -/
+theorem matrix_setitem_vector_refines {h : Heap} {m : MatView} {data : View} (w : m.WF (shape h)) (hinj : m.Injective)
+    (wd : data.WF (shape h)) (hne : data.buf ≠ m.buf) {idx : PyIdx} {ms : MatSlice}
+    (hm : extractMat m.rows idx = .ok ms) {n : Nat} {rowOf : Nat → Nat} (hsel : RowSel m ms n rowOf)
+    (hdl : data.length = m.cols) :
+    ∃ h', setitemVectorMat h m idx data = .ok h' ∧ shape h' = shape h ∧ Frame m.buf h h' ∧
+      m.toNested h' = PyList.assign2D (m.toNested h) ((List.range n).map rowOf) (List.range m.cols)
+        (fun _ j => (data.toList h).getD j 0) := setitemVectorMat_refines w hinj wd hne hm hsel hdl
+
+/-- `m[idx] = other` (matrix right-hand side) -/
+theorem matrix_setitem_matrix_refines {h : Heap} {m data : MatView} (w : m.WF (shape h)) (hinj : m.Injective)
+    (wd : data.WF (shape h)) (hne : data.buf ≠ m.buf) {idx : PyIdx} {ms : MatSlice}
+    (hm : extractMat m.rows idx = .ok ms) {n : Nat} {rowOf : Nat → Nat} (hsel : RowSel m ms n rowOf)
+    (hdr : data.rows = n) (hdc : data.cols = m.cols) :
+    ∃ h', setitemMatrixMat h m idx data = .ok h' ∧ shape h' = shape h ∧ Frame m.buf h h' ∧
+      m.toNested h' = PyList.assign2D (m.toNested h) ((List.range n).map rowOf) (List.range m.cols)
+        (fun b j => ((data.toNested h).getD b []).getD j 0) := setitemMatrixMat_refines w hinj wd hne hm hsel hdr hdc
+
+/-- non-vacuity: the 3x2 matrix is injective; `m[::-2] = 7` on it sets rows 2 and 0 -/
+example : (allocMat [] 3 2 [1, 2, 3, 4, 5, 6]).2.Injective ∧
+    (match setitemScalarMat (allocMat [] 3 2 [1, 2, 3, 4, 5, 6]).1 (allocMat [] 3 2 [1, 2, 3, 4, 5, 6]).2
+        (.slice none none (some (-2))) 7 with
+      | .ok h' => (allocMat [] 3 2 [1, 2, 3, 4, 5, 6]).2.toNested h'
+      | .error _ => []) = [[7, 7], [3, 4], [7, 7]] :=
+  ⟨allocMat_Injective _ _ _ _, by decide⟩
+
 /-- `m[i]`: a writable view on row `i` (same allocation), reading `nested[i]`; `IndexError` as for a list -/
 theorem matrix_row_refines {h : Heap} {m : MatView} (w : m.WF (shape h)) (i : Int) :
     (match PyList.getitem (m.toNested h) i with
@@ -973,6 +1092,73 @@ theorem varray_readonly_raises (h : VHeap) (v d : VView) (idx : PyIdx) (bits dat
     setSizeVec h v idx sizes = (h, some .readOnly) ∧ setSizeVecMask h v bits sizes = (h, some .readOnly) ∧
     (∀ i j x r, getRow h v i = .ok r → setElem h v i j x = .error .readOnly) :=
   varray_readonly h v d idx bits data sizes k hw
+
+/-! ### FixedVArray WRITES refine nested-list updates (success path; a row-length mismatch raises in the middle of the
+loop and leaves the rows before it assigned — modelled, outside the nested-list specification) -/
+
+/-- `va[i][j] = x` -/
+theorem varray_setelem_refines {h : VHeap} {v : VView} (w : v.WF (vshape h)) (hw : v.writable = true) {i j : Int}
+    {ci cj : Nat} (hi : canonicalIndex v.length i = .ok ci)
+    (hj : canonicalIndex ((v.toNested h).getD ci []).length j = .ok cj) (x : Int) :
+    ∃ h', setElem h v i j x = .ok h' ∧ vshape h' = vshape h ∧
+      v.toNested h' = (v.toNested h).set ci (((v.toNested h).getD ci []).set cj x) := setElem_refines w hw hi hj x
+
+/-- `va[idx] = row` (int or slice; dense or masked `va`) -/
+theorem varray_setrow_refines {h : VHeap} {v : VView} (w : v.WF (vshape h)) (hw : v.writable = true) {idx : PyIdx}
+    {s : SliceIdx} (hs : extractV v.length idx = .ok s) (data : List Int)
+    (hlen : ∀ a, a < s.slicelength → ((v.toNested h).getD (s.at a) []).length = data.length) :
+    ∃ h', setRow h v idx data = (h', none) ∧ vshape h' = vshape h ∧
+      v.toNested h' = PyList.setEach (v.toNested h) s.positions data := setRow_refines w hw hs data hlen
+
+/-- `va[mask] = row` -/
+theorem varray_setrow_mask_refines {h : VHeap} {v : VView} (w : v.WF (vshape h)) (hw : v.writable = true)
+    (hun : v.indices = none) (bits : List Int) (hbl : bits.length = v.length) (data : List Int)
+    (hlen : ∀ i ∈ PyList.maskPositions bits, ((v.toNested h).getD i []).length = data.length) :
+    ∃ h', setRowMask h v bits data = (h', none) ∧ vshape h' = vshape h ∧
+      v.toNested h' = PyList.setEach (v.toNested h) (PyList.maskPositions bits) data :=
+  setRowMask_refines w hw hun bits hbl data hlen
+
+/-- `va[idx] = vb` -/
+theorem varray_setvec_refines {h : VHeap} {v d : VView} (w : v.WF (vshape h)) (wd : d.WF (vshape h))
+    (hw : v.writable = true) (hne : d.buf ≠ v.buf) {idx : PyIdx} {s : SliceIdx} (hs : extractV v.length idx = .ok s)
+    (hdl : d.length = s.slicelength) :
+    ∃ h', setVec h v idx d = (h', none) ∧ vshape h' = vshape h ∧
+      v.toNested h' = PyList.setZip (v.toNested h) s.positions (d.toNested h) := setVec_refines w wd hw hne hs hdl
+
+/-- `va[mask] = vb`, `len(vb) == len(va)` (the packed branch is tied by correspondence only) -/
+theorem varray_setvec_mask_refines {h : VHeap} {v d : VView} (w : v.WF (vshape h)) (wd : d.WF (vshape h))
+    (hw : v.writable = true) (hun : v.indices = none) (hne : d.buf ≠ v.buf) (bits : List Int)
+    (hbl : bits.length = v.length) (hdl : d.length = v.length) :
+    ∃ h', setVecMask h v bits d = (h', none) ∧ vshape h' = vshape h ∧
+      v.toNested h' = PyList.setMaskSame (v.toNested h) bits (d.toNested h) :=
+  setVecMask_same_refines w wd hw hun hne bits hbl hdl
+
+/-- `va.size[idx] = k`: the selected rows are truncated / zero-extended to `k` elements -/
+theorem varray_setsize_refines {h : VHeap} {v : VView} (w : v.WF (vshape h)) (hw : v.writable = true) {idx : PyIdx}
+    {s : SliceIdx} (hs : extractV v.length idx = .ok s) (k : Nat) :
+    ∃ h', setSize h v idx k = (h', none) ∧ vshape h' = vshape h ∧
+      v.toNested h' = PyList.modifyEach (v.toNested h) s.positions (fun r => PyList.resize r k) := setSize_refines w hw hs k
+
+/-- `va.size[idx] = sizes` -/
+theorem varray_setsize_vec_refines {h : VHeap} {v : VView} (w : v.WF (vshape h)) (hw : v.writable = true) {idx : PyIdx}
+    {s : SliceIdx} (hs : extractV v.length idx = .ok s) (sizes : List Int) (hsl : sizes.length = s.slicelength) :
+    ∃ h', setSizeVec h v idx sizes = (h', none) ∧ vshape h' = vshape h ∧
+      v.toNested h' = PyList.modifyZip (v.toNested h) s.positions sizes (fun k r => PyList.resize r k.toNat) :=
+  setSizeVec_refines w hw hs sizes hsl
+
+/-- `va.size[mask] = k` -/
+theorem varray_setsize_mask_refines {h : VHeap} {v : VView} (w : v.WF (vshape h)) (hw : v.writable = true)
+    (hun : v.indices = none) (bits : List Int) (hbl : bits.length = v.length) (k : Nat) :
+    ∃ h', setSizeMask h v bits k = (h', none) ∧ vshape h' = vshape h ∧
+      v.toNested h' = PyList.modifyEach (v.toNested h) (PyList.maskPositions bits) (fun r => PyList.resize r k) :=
+  setSizeMask_refines w hw hun bits hbl k
+
+/-- a worked instance: on `[[1],[],[2,3]]`, `va.size[::2] = 2` gives `[[1,0],[],[2,3]]`, then `va[1:] = ...` -/
+example : (setSize (allocV [] [[1], [], [2, 3]]).1 (allocV [] [[1], [], [2, 3]]).2 (.slice none none (some 2)) 2).2 = none ∧
+    ((allocV [] [[1], [], [2, 3]]).2.toNested
+      (setSize (allocV [] [[1], [], [2, 3]]).1 (allocV [] [[1], [], [2, 3]]).2 (.slice none none (some 2)) 2).1)
+      = [[1, 0], [], [2, 3]] ∧
+    PyList.modifyEach [[1], [], [2, 3]] [0, 2] (fun r => PyList.resize r 2) = [[1, 0], [], [2, 3]] := by decide
 
 /-- non-vacuity: `VIntArray` with rows `[[1],[],[2,3]]` is well formed and reads back as that nested list -/
 example : (allocV [] [[1], [], [2, 3]]).2.WF (vshape (allocV [] [[1], [], [2, 3]]).1) ∧
@@ -1037,6 +1223,23 @@ example :
     ((setVecString ⟨[⟨0, "x"⟩], [0]⟩ ⟨[⟨0, "y"⟩], [0]⟩ [0]).bind (fun a' => getitemString a' 0)) = some "y" ∧
     getitemString ⟨[⟨0, "x"⟩], ([0] : List Nat).set 0 0⟩ 0 = some "x" := by decide
 
+open ImathVerif.StringTable in
+/-- **`a == b`** of two string arrays (each element looked up in its own table) is the element-wise comparison of the
+    lists they represent; `!=` is its negation in the driver -/
+theorem string_eq_arrays_refines {a b : ArrState} {la lb : List String} (ra : Repr a la) (rb : Repr b lb)
+    (hlen : la.length = lb.length) : eqArrays a b = some (List.zipWith (· == ·) la lb) := eqArrays_repr ra rb hlen
+
+open ImathVerif.StringTable in
+/-- **`a == s`** (`hasString`, then a comparison of table INDICES) is `[x == s for x in list]`: sound and complete because
+    index ↔ string is a bijection -/
+theorem string_eq_scalar_refines {a : ArrState} {la : List String} (ra : Repr a la) (s : String) :
+    eqString a s = la.map (· == s) := eqString_repr ra s
+
+open ImathVerif.StringTable in
+/-- a worked instance through two tables with different interning orders: `["x","y"] == ["y","y"]` -/
+example : eqArrays ⟨[⟨0, "x"⟩, ⟨1, "y"⟩], [0, 1]⟩ ⟨[⟨0, "y"⟩], [0, 0]⟩ = some [false, true] ∧
+    eqString ⟨[⟨0, "x"⟩, ⟨1, "y"⟩], [0, 1]⟩ "y" = [false, true] := by decide
+
 /-! ## Buffer protocol -/
 open ImathVerif.BufferProtocol
 
@@ -1044,6 +1247,30 @@ open ImathVerif.BufferProtocol
 theorem buffer_len_is_shape_times_itemsize (t : ElemTy) (length stride : Nat) :
     (getbuffer BufCfg.repaired t length stride).consistent := by
   simp [PyBuffer.consistent, getbuffer, numBytes, BufCfg.repaired]
+
+/-- **exported contents** (any element type, dense or strided array): a consumer of the view `getbuffer` fills in reads, in
+    C order, the `itemsize`-byte items at `off + Σ index_d · stride_d` of the array's storage — the model function the
+    check compares with `memoryview(a).tobytes()` of the real module -/
+theorem buffer_export_contents (cfg : BufCfg) (t : ElemTy) (n stride : Nat) (mem : List Nat) (off : Nat)
+    (hin : ∀ o ∈ natOffsets (apiShape t n stride) (apiStrides t stride), off + o + t.atomicSize ≤ mem.length) :
+    exportBytes cfg t n stride mem off
+      = some ((natOffsets (apiShape t n stride) (apiStrides t stride)).flatMap
+          (fun o => (mem.drop (off + o)).take t.atomicSize)) := export_contents cfg t n stride mem off hin
+
+/-- the item offsets of a 1-D export (scalar arrays; `stride > 1` = a component array such as `V3fArray.y`): element `i`
+    at `i · atomicSize · width · stride` -/
+theorem buffer_export_1d_offsets (t : ElemTy) (hd : t.dims = 1) (n stride : Nat) :
+    natOffsets (apiShape t n stride) (apiStrides t stride)
+      = (List.range n).map (fun i => i * (t.atomicSize * t.width * stride)) := natOffsets_1d t hd n stride
+
+/-- the item offsets of a 2-D export (vector arrays): component `j` of element `i` at `i·atomicSize·width·stride + j·atomicSize` -/
+theorem buffer_export_2d_offsets (t : ElemTy) (hd : t.dims = 2) (n stride : Nat) :
+    natOffsets (apiShape t n stride) (apiStrides t stride)
+      = (List.range n).flatMap (fun i => (List.range (t.width * stride)).map
+          (fun j => i * (t.atomicSize * t.width * stride) + j * t.atomicSize)) := natOffsets_2d t hd n stride
+
+/-- a worked instance: the `.y` component array (offset 1 byte, stride 3) of a 2-element array of 3 one-byte components -/
+example : exportBytes BufCfg.repaired ⟨1, 1, 1, 1, 'B'⟩ 2 3 [10, 11, 12, 20, 21, 22] 1 = some [11, 21] := by decide
 
 /-- **`...ArrayFromBuffer` copies exactly the source's items** — for BOTH acceptable forms of the copy (item by item
     honouring the strides, or `memcpy` after refusing non-contiguous views): an accepted source has the array's
